@@ -12,6 +12,12 @@ symbols, folds, links, semantic tokens, formatting per file; workspace symbols) 
 every request repeated 50 times on one server, on 12 fresh servers in one process, and in 4
 fresh processes.  Every reply and every published diagnostic list (messages included) is
 serialised canonically and must be byte-identical across all repetitions.
+
+History part: Lifecycle.tla models files, open documents and editor buffers under change / save /
+close / re-open notifications with the view a request must be answered from (buffer if open, file
+otherwise); TLC checks that the repaired mechanism keeps the server's knowledge equal to the view and
+that ignoring didOpen or didClose does not; every history to a depth is replayed serially and the
+server that lived through it must answer like a fresh server that is given the resulting state.
 """
 import collections
 import json
@@ -140,21 +146,81 @@ def run_all(run, hcs):
     return per_case
 
 
+def lcfg(maxops, mech, emit):
+    return ("CONSTANTS Docs = {\"u1\", \"u2\", \"u3\"} MaxOps = %d Mech = \"%s\"\nSPECIFICATION Spec\nINVARIANTS TypeOK KnownIsView%s\nCHECK_DEADLOCK FALSE\n"
+            % (maxops, mech, " Emit" if emit else ""))
+
+
+def histories(run):
+    """Lifecycle.tla: every history of notifications (change / save / close / re-open on three documents, u1 including the
+    other two) up to a depth, as serial streams for the stress harness; the verdict is its final-state comparison."""
+    thorough = run.tier == "thorough"
+    for mech in ("open-ignored", "close-ignored"):
+        bad = run.tlc("Lifecycle", lcfg(3, mech, False), workers=4, allow_violation=True, collect_json=False)
+        if bad.ok or "Invariant KnownIsView is violated" not in bad.stdout:
+            vf.die_tooling("Lifecycle.tla: the mechanism %s no longer violates KnownIsView — the model is vacuous" % mech)
+    out = []
+    for depth, cap in ([(3, None), (4, 1500)] if not thorough else [(4, None), (5, 20000)]):
+        r = run.tlc("Lifecycle", lcfg(depth, "repaired", True), workers=8, timeout=2400)
+        hs = r.json
+        if cap and len(hs) > cap:
+            hs = run.rng.sample(hs, cap)
+        out += hs
+    streams = []
+    for i, h in enumerate(out):
+        streams.append({"ops": [{"op": o["op"], "uri": o["uri"], "kind": "", "arg": 0} for o in h["ops"]], "workspace": i % 2 == 0,
+                        "seed": 0, "serial": True, "expect": {"disk": h["disk"], "open": h["open"], "ed": h["ed"]}})
+    return streams
+
+
+def judge_histories(run, streams, table):
+    res = run.harness("stress", [dict(s, id=str(i)) for i, s in enumerate(streams)], timeout=3400, args=("-par", "8"))
+    n = 0
+    for s, r in zip(streams, res):
+        run.count(vf.digest([s["ops"], s["workspace"]]), True)
+        if "panic" in r:
+            run.diverge("panic", "server panicked: " + r["panic"][:300], {"history": s}, None)
+            continue
+        if r.get("stuck"):
+            vf.die_tooling("serial history did not run to its end: " + r["stuck"][:300])
+        fin = r.get("final") or {}
+        n += fin.get("asked", 0)
+        got = fin.get("state") or {}
+        want_open = {u: bool(v) for u, v in s["expect"]["open"].items()}
+        if got and (got.get("open") != want_open or got.get("versions") != s["expect"]["ed"]):
+            vf.die_tooling("the harness reached state %s, Lifecycle.tla says %s" % (got, s["expect"]))
+        for st in (fin.get("stale") or [])[:2]:
+            u, k = st["what"].split("/")
+            table[("history-dependent:" + k, s["workspace"])] += 1
+            run.diverge("history-dependent:" + k, "after %s, %s on %s answers %s; a fresh server given files %s, open documents %s with texts %s answers %s  [workspace root %s]" % (
+                [(o["op"], o["uri"]) for o in s["ops"]], k, u, st["got"][:240], s["expect"]["disk"], s["expect"]["open"], s["expect"]["ed"], st["want"][:240], s["workspace"]),
+                {"history": s}, None)
+    return n
+
+
 def main(args):
     run = vf.Run("C15", args.tier, args.seed, level="exploration")
     thorough = run.tier == "thorough"
+    table = collections.Counter()
     if args.replay:
         with open(args.replay) as f:
             rp = json.load(f)
+        if "history" in rp["case"]:
+            judge_histories(run, [rp["case"]["history"]], table)
+            run.rule = "replay of one notification history of Lifecycle.tla"
+            return run.finish(confirm=lambda d: confirm(run, d))
         combos = [(rp["case"]["spec_case"], rp["case"]["ws"])]
     else:
+        # history independence: the same state reached along any history of notifications gives the answers of a fresh server
+        streams = histories(run)
+        run.extra["history_requests_compared"] = judge_histories(run, streams, table)
+        run.extra["histories"] = len(streams)
         cases = [c for c in wcommon.gen(run, 24 if not thorough else 300, maxtx=2, extra=True) if len(c["files"]) >= 2][:(10 if not thorough else 150)]
         if not cases:
             vf.die_tooling("WorkspaceFiles.tla produced no workspace with two or more files")
         combos = [(c, ws) for c in cases for ws in (False, True)]
     hcs = [build(c, ws) for c, ws in combos]
     per_case = run_all(run, hcs)
-    table = collections.Counter()
     nreq = 0
     for (c, ws), hc, runs in zip(combos, hcs, per_case):
         run.count(vf.digest([hc["files"], ws]), True)
@@ -176,7 +242,8 @@ def main(args):
     c = combos[0][0]
     run.sample({"files": wcommon.files_of(c), "script": [describe(o) for o in hcs[0]["ops"]][:30]})
     run.rule = ("one evaluation per (workspace simulated by WorkspaceFiles.tla with the C15 transaction in every file, workspace root on/off): a fixed script of requests, each repeated "
-                "%d times on %d fresh servers in %d processes; distinct by (files, root)" % (SAME, FRESH, PROCS))
+                "%d times on %d fresh servers in %d processes; distinct by (files, root); plus one evaluation per notification history enumerated by Lifecycle.tla (every "
+                "history of 3..4 [thorough 4..5] change / save / close / re-open notifications on three documents), whose final state is also given to a fresh server" % (SAME, FRESH, PROCS))
     run.assumptions = ["hash-map iteration order is sampled by repetition, not enumerated: a result assembled from k >= 2 map entries shows a second order within 50 repetitions with probability >= 1 - 2^-49",
                        "date completion items derived from the clock are not requested (the probe contexts are payee, account, commodity and tag)",
                        "scratch directory names are normalised before comparison"]
@@ -184,6 +251,10 @@ def main(args):
 
 
 def confirm(run, d):
+    if "history" in d["case"]:
+        r = run.harness("stress", [dict(d["case"]["history"], id="0")])[0]
+        k = d["sig"].split(":", 1)[1]
+        return any(st["what"].endswith("/" + k) for st in ((r.get("final") or {}).get("stale") or []))
     c, ws = d["case"]["spec_case"], d["case"]["ws"]
     hc = build(c, ws)
     runs = run_all(run, [hc])[0]
